@@ -54,9 +54,9 @@ type Operand struct {
 	Asked   string
 	Recipe  map[string]interface{}
 	Root    *tensor.Dense
-	Backing interface{} // typed slice: the root storage
-	Off     []int       // Off[r] = index in Backing of the logical element of row-major rank r
-	Eng     tensor.Engine // engine attached to the root tensor (nil: the default engine)
+	Backing interface{}    // typed slice: the root storage
+	Off     []int          // Off[r] = index in Backing of the logical element of row-major rank r
+	Eng     tensor.Engine  // engine attached to the root tensor (nil: the default engine)
 	specs   []tensor.Slice // S/SS layouts: the slices that cut D out of Root (so that the view can be cut again from a masked parent)
 	keep    []*tensor.Dense
 }
@@ -225,6 +225,9 @@ func BuildWith(m *model.ND, layout string, rng *rand.Rand, eng tensor.Engine) (o
 	op.Recipe["layout"] = op.Layout
 	op.Recipe["shape"] = m.Shape
 	op.Recipe["dtype"] = model.Name(m.T)
+	if OnTensor != nil && op.D != nil {
+		OnTensor(op.D, "operand:"+op.Layout)
+	}
 	return op, nil
 }
 
@@ -652,7 +655,9 @@ func (op *Operand) build(m *model.ND, layout string, rng *rand.Rand) error {
 func (op *Operand) BackingLen() int { return reflect.ValueOf(op.Backing).Len() }
 
 // BackingAt reads the root storage directly (not through the library).
-func (op *Operand) BackingAt(i int) interface{} { return reflect.ValueOf(op.Backing).Index(i).Interface() }
+func (op *Operand) BackingAt(i int) interface{} {
+	return reflect.ValueOf(op.Backing).Index(i).Interface()
+}
 
 // Validate checks the operand in two independent ways: an At sweep must return
 // the model, and the harness' own offsets must locate the same values in the
@@ -712,7 +717,16 @@ func (op *Operand) Current() *model.ND {
 }
 
 // ReadAll reads every element of d through At in row-major coordinate order.
+// OnTensor, when set, is shown every operand the factory builds and every tensor a check reads back (C13 evaluates
+// the metadata invariant there while it replays the other checks' workloads).
+var OnTensor func(d *tensor.Dense, role string)
+
 func ReadAll(d tensor.Tensor) (m *model.ND, err error) {
+	if OnTensor != nil {
+		if dd, ok := d.(*tensor.Dense); ok && dd != nil {
+			OnTensor(dd, "result")
+		}
+	}
 	shape := model.CopyInts([]int(d.Shape()))
 	if d.Shape().IsScalar() {
 		shape = []int{}
